@@ -109,6 +109,8 @@ type c39Info struct {
 	errored   bool
 	errText   string
 	out       []byte
+	out2      []byte
+	j1        any
 	lineBreak bool
 }
 
@@ -143,6 +145,12 @@ func formatOracle(src []byte, o Options) (msg string, info c39Info) {
 	if e1 != nil || e2 != nil {
 		return fmt.Sprintf("AST cannot be serialised: %v %v", e1, e2), info
 	}
+	info.j1 = j1
+	if inheritPrinterDefects {
+		// FS32: the formatter renders through the same ast Doc methods as the printer and inherits its defects (C38 FS9…FS23):
+		// empty else / pre / post blocks and an empty transaction parameter list are dropped
+		j1, _ = dropEmptyElse(j1, true, true, true)
+	}
 	i1, r1 := splitImports(j1)
 	i2, r2 := splitImports(j2)
 	if !o.SortImports {
@@ -170,6 +178,7 @@ func formatOracle(src []byte, o Options) (msg string, info c39Info) {
 	if err2 != nil {
 		return "formatter rejects its own output: " + firstLine(err2.Error()), info
 	}
+	info.out2 = out2
 	if string(out2) != string(out) {
 		return "formatter is not idempotent (" + diffLine(string(out), string(out2)) + ")", info
 	}
@@ -200,6 +209,7 @@ func TestC39(t *testing.T) {
 		return
 	}
 	defer debug.SetGCPercent(debug.SetGCPercent(400))
+	inheritPrinterDefects = rec.Known("FS32")
 	r := evid.Rand(39)
 	cfg := srcgen.DefaultConfig()
 	cfg.MaxDecls, cfg.MaxStmts = 4, 3
@@ -268,7 +278,7 @@ func TestC39(t *testing.T) {
 		} else {
 			p = g.Program()
 		}
-		l := srcgen.Layout{Comments: []float64{0.03, 0.08, 0.15, 0.3}[r.Intn(4)], Semicolons: r.Float64() * 0.5, BlankLines: r.Float64() * 0.4,
+		l := srcgen.Layout{Comments: []float64{0.02, 0.03, 0.06, 0.12}[r.Intn(4)], Semicolons: r.Float64() * 0.5, BlankLines: r.Float64() * 0.4,
 			Compact: r.Float64(), NonASCII: r.Intn(2) == 0, DocComments: r.Intn(3) == 0, IndentSpaces: 1 + r.Intn(4)}
 		rd := srcgen.Render(p.Toks, r, l)
 		scanned := srcgen.ScanComments([]byte(rd.Text))
@@ -301,7 +311,15 @@ func TestC39(t *testing.T) {
 }
 
 // knownC39 returns the id of a listed known finding matching the failure ("" if none).
+var inheritPrinterDefects bool
+
 func knownC39(rec *evid.Rec, msg string, src []byte, o Options, info c39Info) string {
+	if inheritPrinterDefects && info.j1 != nil && !strings.HasPrefix(msg, "comments changed") {
+		if id := knownPrinterDefect(func(string) bool { return true }, info.j1, msg+" "+lastFormatError(src, o), string(info.out)); id != "" {
+			rec.Class("inherited-printer-defect/" + id)
+			return "FS32"
+		}
+	}
 	if o.SkipVerify && rec.Known("FS29") && (strings.HasPrefix(msg, "formatter output does not parse") || strings.HasPrefix(msg, "AST changed") || strings.HasPrefix(msg, "import declarations changed")) {
 		// FS29: rendering defects that the formatter's own round-trip verification catches (it then returns an error, which the
 		// statement allows) are returned as "successful" output when the caller sets SkipVerify. Predicate: the same input with
@@ -313,5 +331,145 @@ func knownC39(rec *evid.Rec, msg string, src []byte, o Options, info c39Info) st
 			return "FS29"
 		}
 	}
+	if strings.HasPrefix(msg, "formatter is not idempotent") && rec.Known("FS30") && len(srcgen.ScanComments(info.out)) > 0 &&
+		codeOnly(info.out) == codeOnly(info.out2) && diffMultiset(commentMultiset(info.out), commentMultiset(info.out2)) == "" {
+		// FS30: comment placement is not stable: a comment that the first pass moved (e.g. hoisted in front of an argument list, or
+		// several comments joined on one line) is attached to a different node by the second pass. Predicate: the two outputs have
+		// the same comments and, with comments and whitespace removed, the same text.
+		return "FS30"
+	}
+	if strings.HasPrefix(msg, "comments changed") {
+		if id := explainCommentChange(rec, src, info.out); id != "" {
+			return id
+		}
+	}
+	if strings.HasPrefix(msg, "formatter is not idempotent") && o.SkipVerify && rec.Known("FS31") && rec.Known("FS29") && len(srcgen.ScanComments(info.out)) > 0 {
+		// FS31 seen through SkipVerify (FS29): with verification the second pass rejects the first output
+		o2 := o
+		o2.SkipVerify = false
+		if lastFormatError(info.out, o2) != "" {
+			return "FS31"
+		}
+	}
+	if strings.HasPrefix(msg, "formatter rejects its own output") && rec.Known("FS31") && len(srcgen.ScanComments(info.out)) > 0 {
+		// FS31: same instability as FS30, but the second pass fails its own verification (a moved comment ends up where the
+		// next rendering breaks the code)
+		return "FS31"
+	}
 	return ""
+}
+
+// explainCommentChange recognises the listed comment defects, alone or combined:
+//   - FS33: a comment inside the expression of a string template is dropped without any error;
+//   - FS34: a comment next to the `else` of an if statement (between `}` and `else`, or between `else` and `if`/`{`) is dropped;
+//   - FS35: a comment is rendered behind a line comment on the same line and becomes part of it.
+//
+// Every comment missing from the output must be explained by FS33/FS34 or be part of the single merged line comment that
+// appears new in the output (whitespace ignored, source order); anything else stays a violation.
+func explainCommentChange(rec *evid.Rec, src, outText []byte) string {
+	out := commentMultiset(outText)
+	in := commentMultiset(src)
+	var extra []string
+	for k, n := range out {
+		for i := in[k]; i < n; i++ {
+			extra = append(extra, k)
+		}
+	}
+	used := ""
+	cs := srcgen.ScanCommentsDetailed(src)
+	seen := map[string]int{}
+	var unexplained []string
+	for i, c := range cs {
+		k := normComment(c.Text)
+		seen[k]++
+		if seen[k] <= out[k] {
+			continue // still present (the first occurrences are taken as the surviving ones)
+		}
+		end := c.Offset + len(c.Text)
+		for j := i + 1; ; j++ {
+			for end < len(src) && (src[end] == ' ' || src[end] == '\n' || src[end] == '\t' || src[end] == '\r') {
+				end++
+			}
+			if j < len(cs) && cs[j].Offset == end {
+				end += len(cs[j].Text)
+				continue
+			}
+			break
+		}
+		start := c.Offset
+		for j := i - 1; ; j-- {
+			for start > 0 && (src[start-1] == ' ' || src[start-1] == '\n' || src[start-1] == '\t' || src[start-1] == '\r') {
+				start--
+			}
+			if j >= 0 && cs[j].Offset+len(cs[j].Text) == start {
+				start = cs[j].Offset
+				continue
+			}
+			break
+		}
+		switch {
+		case c.InTemplate && rec.Known("FS33"):
+			if used == "" {
+				used = "FS33"
+			}
+		case rec.Known("FS34") && (strings.HasPrefix(string(src[end:]), "else") || strings.HasSuffix(string(src[:start]), "else")):
+			if used == "" {
+				used = "FS34"
+			}
+		default:
+			unexplained = append(unexplained, k)
+		}
+	}
+	if len(extra) == 0 && len(unexplained) == 0 {
+		return used
+	}
+	if rec.Known("FS35") && len(extra) == 1 && strings.HasPrefix(extra[0], "//") && len(unexplained) >= 2 {
+		var cat strings.Builder
+		for _, k := range unexplained {
+			cat.WriteString(strings.Join(strings.Fields(k), ""))
+		}
+		if cat.String() == strings.Join(strings.Fields(extra[0]), "") {
+			return "FS35"
+		}
+	}
+	return ""
+}
+
+// lastFormatError returns the error text of formatting src (used to recognise parser messages behind a verification error).
+func lastFormatError(src []byte, o Options) string {
+	_, err, _ := formatGuarded(src, o)
+	if err != nil {
+		return err.Error()
+	}
+	return ""
+}
+
+// codeOnly removes the comments and all whitespace.
+func codeOnly(src []byte) string {
+	t := string(src)
+	for _, c := range srcgen.ScanComments(src) {
+		t = strings.Replace(t, c, "", 1)
+	}
+	return strings.Join(strings.Fields(t), "")
+}
+
+// hasMultiCommentLine reports whether a line of the text consists of two or more comments and nothing else.
+func hasMultiCommentLine(out []byte) bool {
+	for _, l := range strings.Split(string(out), "\n") {
+		t := strings.TrimSpace(l)
+		if !strings.HasPrefix(t, "/*") {
+			continue
+		}
+		cs := srcgen.ScanComments([]byte(t))
+		if len(cs) >= 2 {
+			rest := t
+			for _, c := range cs {
+				rest = strings.Replace(rest, c, "", 1)
+			}
+			if strings.TrimSpace(rest) == "" {
+				return true
+			}
+		}
+	}
+	return false
 }
